@@ -137,6 +137,19 @@ def cp_ranges(p, ctx, fn, lo, hi, gen):
     return recs
 
 
+class HostileInt(int):
+    """a number whose str() text contains markup metacharacters (e.g. an IntEnum member with a label)"""
+    def __str__(self):
+        return "<R&D #%d>" % int(self)
+    __repr__ = lambda self: "HostileInt(%d)" % int(self)
+
+
+class HostileFloat(float):
+    def __str__(self):
+        return "1 < 2 & 3 > %s" % float.__repr__(self)
+    __repr__ = lambda self: "HostileFloat(%s)" % float.__repr__(self)
+
+
 # ---------------------------------------------------------------------------
 class C02(Prop):
     observed_from_suite = ["EscapeTrace"]
@@ -195,6 +208,13 @@ class C02(Prop):
         for _ in range(200 if tier == "quick" else 4000):
             s = gamma.rand_text(rnd, rnd.choice([6, 20, 60]))
             gens.append({"kind": rnd.choice(["fn", "child"]), "s": cps(s), "shape": rnd.choice(names), "prime": True})
+        for s in gamma.LONG_HOSTILE:
+            for nm in ("only_block", "second_after_inline", "after_block", "append", "nested_lists", "tagify_list"):
+                gens.append({"kind": "child", "s": cps(s), "shape": nm, "prime": True})
+            gens.append({"kind": "fn", "s": cps(s), "prime": True})
+        for n_ in [HostileInt(3), HostileFloat(2.5)]:
+            for nm in ("only_block", "only_inline", "second_after_inline", "append", "nested_lists", "insert0", "extend"):
+                gens.append({"kind": "num", "n": repr(n_), "shape": nm})
         for n_ in [0, 1, -1, 7, 10 ** 20, 2.5, -0.0, 1e-7, 1e22, float("inf"), True, False]:
             for nm in ("only_block", "second_after_inline", "append", "nested_lists", "insert0"):
                 gens.append({"kind": "num", "n": repr(n_), "shape": nm})
@@ -226,9 +246,12 @@ class C02(Prop):
         H = _lib()
         k = g["kind"]
         if g.get("prime") and "s" in g:
-            # the same text is first escaped for the OTHER context in this process
+            # history dependence: the same text is first escaped for the OTHER context in this process,
+            # and first rendered as trusted markup (a cache must not confuse HTML(s) with the plain string s)
             H.html_escape(uncps(g["s"]), attr=True)
             H.Tag("i", title=uncps(g["s"])).get_html_string()
+            H.tags.div(H.HTML(uncps(g["s"]))).get_html_string()
+            H.tags.div(H.HTML(uncps(g["s"])), "t").get_html_string()
         if k == "fn":
             s = uncps(g["s"])
             out = H.html_escape(s)
@@ -243,7 +266,7 @@ class C02(Prop):
                 return flag("DRIFT", "context", True, False, g)
             return seg_rec("C02", "text", [("esc", s)], seg, g)
         if k == "num":
-            n = eval(g["n"], {"inf": float("inf")})
+            n = eval(g["n"], {"inf": float("inf"), "HostileInt": HostileInt, "HostileFloat": HostileFloat})
             sh = shapes()[g["shape"]]
             m = sh(MARK)
             pre, suf = m.split(MARK)
@@ -363,6 +386,16 @@ class C04(Prop):
                     gens.append({"kind": "rawtext", "tag": tagname, "form": form, "s": cps(p)})
             for way in ("kw", "dict", "setitem", "update", "second_attr"):
                 gens.append({"kind": "html_attr", "s": cps(p), "way": way})
+        for p in gamma.LONG_HOSTILE:
+            for nm in ("only_block", "only_inline", "second_after_inline", "after_block", "taglist_only"):
+                gens.append({"kind": "html_child", "s": cps(p), "shape": nm, "prime": True})
+            gens.append({"kind": "html_attr", "s": cps(p), "way": "kw", "prime": True})
+        cat = gamma.catalogue()
+        for mod in ("tags", "svg"):
+            for j, nm in enumerate(cat[mod]):
+                if nm in ("script", "style"):
+                    continue
+                gens.append({"kind": "concat_in", "mod": mod, "tag": nm, "a": cps("<b>"), "b": cps("a<b & c"), "order": j % 2})
         n = 400 if tier == "quick" else 8000
         for _ in range(n):
             p = gamma.rand_text(rnd, rnd.choice([5, 30, 120]))
@@ -383,6 +416,26 @@ class C04(Prop):
         H = _lib()
         k = g["kind"]
         s = uncps(g["s"]) if "s" in g else None
+        if g.get("prime") and s is not None:
+            # history dependence: the same characters were first rendered as a PLAIN string in this process
+            H.tags.div(s).get_html_string()
+            H.tags.div("t", s).get_html_string()
+            H.html_escape(s)
+        if k == "concat_in":
+            f = gamma.catalogue()[g["mod"]][g["tag"]]
+            a, b = uncps(g["a"]), uncps(g["b"])
+            res = H.HTML(a) + b if g["order"] == 0 else a + H.HTML(b)
+            pieces = [("raw", a), ("esc", b)] if g["order"] == 0 else [("esc", a), ("raw", b)]
+            seg = segment(lambda x: f(x), H.HTML(MARK), res)
+            seg2 = segment(lambda x: f("k", x), H.HTML(MARK), res)
+            # compared without layout whitespace (a block tag puts one text child on one line, two children on three)
+            adj = f(H.HTML(a), b, _add_ws=False) if g["order"] == 0 else f(a, H.HTML(b), _add_ws=False)
+            recs = []
+            for sg in (seg, seg2):
+                if sg is not None:
+                    recs.append(seg_rec("C04", "text", pieces, sg, g))
+            recs.append(flag("C04", "SameAsAdjacentChildren", True, str(f(res, _add_ws=False).get_html_string()) == str(adj.get_html_string()), g))
+            return recs
         if k == "html_child":
             sh = shapes()[g["shape"]]
             seg = segment(sh, H.HTML(MARK), H.HTML(s))
